@@ -369,6 +369,33 @@ def gen_ftp_plan(rng, listing):
     return plan, data, mlsd
 
 
+GOOD_FTP = {'greet': b'220 ready\r\n', 'USER': b'331 pw\r\n', 'PASS': b'230 in\r\n', 'TYPE': b'200 ok\r\n',
+            'PASV': b'227 Entering Passive Mode (10,0,0,1,7,228)\r\n', 'SIZE': b'213 3\r\n', 'REST': b'350 ok\r\n', 'RETR': b'150 here\r\n',
+            'after': b'226 done\r\n', 'MLSD': b'150 here\r\n', 'LIST': b'150 here\r\n', 'CWD': b'250 ok\r\n'}
+
+
+def gen_ftp_plan_polite(rng):
+    """A server whose replies are all in order, so that what it LISTS is what gets processed: hostile entry
+    names, symlinks (duplicate names, names with separators / NUL / dots, odd targets), odd sizes and dates."""
+    plan = dict(GOOD_FTP)
+    mlsd = rng.random() < 0.4
+    if not mlsd:
+        plan['MLSD'] = rng.choice([b'500 no\r\n', b'502 no\r\n'])
+    lines = []
+    for _ in range(rng.randint(1, 5)):
+        name = rng.choice(hostile.ODD_NAMES + ['l', 'l', 'a.txt', 'd'])
+        if mlsd:
+            lines.append(rng.choice(['type=file;size=3;modify=20200101000000; %s', 'type=dir; %s', 'type=OS.unix=slink:/etc/passwd; %s',
+                                     'type=OS.unix=symlink; %s', 'type=file;size=3;unix.mode=0644; %s', 'type=file;perm=r;unix.mode=9999; %s']) % name)
+        else:
+            lines.append(rng.choice(['lrwxrwxrwx 1 u g 1 Jan 1 2020 %s -> t', 'lrwxrwxrwx 1 u g 1 Jan 1 2020 %s -> /etc/passwd',
+                                     'lrwxrwxrwx 1 u g 1 Jan 1 2020 %s -> ../../x', 'lrwxrwxrwx 1 u g 1 Jan 1 2020 %s', 'lrwxrwxrwx 1 u g 1 Jan 1 2020 %s -> ',
+                                     '-rw-r--r-- 1 u g 3 Jan 01 2020 %s', 'drwxr-xr-x 2 u g 4096 Jan 01 00:00 %s', '-rwsr-sr-t 1 u g 3 Jan 01 2020 %s',
+                                     '---------- 1 u g 3 Jan 01 2020 %s']) % name)
+    data = ('\r\n'.join(lines) + '\r\n').encode('utf-8', 'surrogateescape')
+    return plan, data, mlsd
+
+
 def ftp_once(plan, data, listing, seed):
     from wpull.network.pool import ConnectionPool
     from wpull.protocol.ftp.client import Client
@@ -450,7 +477,7 @@ class _StubTable:
         pass
 
 
-def ftp_proc_once(plan, data, url, glob_on, preserve, seed):
+def ftp_proc_once(plan, data, url, glob_on, preserve, seed, opts=None):
     """The REAL FTPProcessor.process(item) (file-vs-directory probe of the parent, glob listing, fetch,
     permission probe) against a hostile FTP server.  Nothing may leave process(): it runs directly under
     the pipeline worker."""
@@ -478,7 +505,19 @@ def ftp_proc_once(plan, data, url, glob_on, preserve, seed):
             client = Client(connection_pool=pool)
             table = _StubTable()
             from wpull.urlfilter import DemuxURLFilter
-            factory = {'FileWriter': NullWriter(), 'FetchRule': FetchRule(url_filter=DemuxURLFilter([])),
+            o = opts or {}
+            writer = NullWriter()
+            if o.get('file_writer'):
+                # files really saved below tmp (what --retr-symlinks off and the permission code need)
+                from wpull.path import PathNamer
+                from wpull.writer import OverwriteFileWriter
+                writer = OverwriteFileWriter(PathNamer(os.path.join(tmp, 'out'), use_dir=True, hostname=True))
+            if o.get('warc'):
+                # --warc-file: the recorder listens to every FTP session (control conversation, data)
+                from wpull.warc.recorder import WARCRecorder, WARCRecorderParams
+                recorder = WARCRecorder(os.path.join(tmp, 'rec'), params=WARCRecorderParams(compress=False, temp_dir=tmp, log=False))
+                recorder.listen_to_ftp_client(client)
+            factory = {'FileWriter': writer, 'FetchRule': FetchRule(url_filter=DemuxURLFilter([])),
                        'ResultRule': ResultRule(waiter=LinearWaiter(wait=0, max_wait=0), statistics=Statistics()),
                        'URLTable': table}
             r = URLRecord()
@@ -487,7 +526,8 @@ def ftp_proc_once(plan, data, url, glob_on, preserve, seed):
             r.priority = 0
             r.link_type = None
             item = ItemSession(types.SimpleNamespace(factory=factory, root_path=tmp), r)
-            proc = FTPProcessor(client, FTPProcessorFetchParams(glob=glob_on, preserve_permissions=preserve))
+            proc = FTPProcessor(client, FTPProcessorFetchParams(glob=glob_on, preserve_permissions=preserve,
+                                                                retr_symlinks=o.get('retr_symlinks', True)))
             task = asyncio.ensure_future(compat._ensure(proc.process(item)))
             done = await fakenet.settle(task, [], extra=400)
             if not done:
@@ -518,12 +558,17 @@ def stream_ftp_proc(ctx, n):
     for _ in range(n):
         url = rng.choice(['ftp://a.test/dir/f.txt', 'ftp://a.test/dir/f.txt', 'ftp://a.test/dir/', 'ftp://a.test/dir/*.txt',
                           'ftp://a.test/f', 'ftp://u:p@a.test/dir/sub/f.bin'])
-        plan, data, mlsd = gen_ftp_plan(rng, True)
+        if rng.random() < 0.35:
+            plan, data, mlsd = gen_ftp_plan_polite(rng)
+            url = rng.choice(['ftp://a.test/dir/', 'ftp://a.test/dir/*', 'ftp://a.test/dir/l', 'ftp://a.test/dir/a.txt'])
+        else:
+            plan, data, mlsd = gen_ftp_plan(rng, True)
         glob_on, preserve = rng.random() < 0.7, rng.random() < 0.5
         seed = rng.randrange(1 << 30)
-        case = {'stream': 'ftp-proc', 'plan': plan, 'data': data, 'url': url, 'glob': glob_on, 'preserve': preserve, 'seed': seed}
+        opts = {'file_writer': rng.random() < 0.5, 'warc': rng.random() < 0.4, 'retr_symlinks': rng.random() < 0.6}
+        case = {'stream': 'ftp-proc', 'plan': plan, 'data': data, 'url': url, 'glob': glob_on, 'preserve': preserve, 'seed': seed, 'opts': opts}
         first = first or case
-        r = ftp_proc_once(plan, data, url, glob_on, preserve, seed)
+        r = ftp_proc_once(plan, data, url, glob_on, preserve, seed, opts)
         tag = 'ok' if r is None else r if isinstance(r, str) else type(r).__name__
         ctx.case(('ftp-proc', json.dumps({k: v.hex() for k, v in plan.items()}, sort_keys=True), data, url), tags=['ftp-proc:' + tag])
         if isinstance(r, Exception):
@@ -560,7 +605,7 @@ def replay(ctx, case, kind=None, where=None):
             ctx.fail(cls, w, case, 'ftp session raised %r' % r)
     elif s == 'ftp-proc':
         ctx.case(('ftp-proc', case['seed']))
-        r = ftp_proc_once(case['plan'], case['data'], case['url'], case['glob'], case['preserve'], case['seed'])
+        r = ftp_proc_once(case['plan'], case['data'], case['url'], case['glob'], case['preserve'], case['seed'], case.get('opts'))
         if isinstance(r, Exception):
             cls, w = classify(r)
             ctx.fail(cls, w, case, 'FTPProcessor.process raised %r' % r)
